@@ -36,6 +36,9 @@ pub fn draw_case(prop: &str, engine: &str, seed: u64, tier: &str) -> Case {
     let mut r = Rng::new(mix(seed, 0xC0F1));
     let mut c = Case::new(prop, engine, seed);
     c.pagesize = *r.pick(&[1024, 1024, 1024, 1024, 2048, 4096]);
+    if tier == "thorough" && r.chance(1, 12) {
+        c.pagesize = *r.pick(&[1032, 3000, 5000, 16384]);
+    }
     c.num_pages = *r.pick(&[4, 8, 32, 32, 64]);
     c.handle_cache = r.chance(1, 2);
     c.via_iter = r.chance(1, 4);
